@@ -10,7 +10,7 @@ import (
 func init() {
 	props["C04"] = &propCheck{
 		lean: []string{"JSight.Props.C04", "JSight.Props.C06"},
-		exes: []string{},
+		exes: []string{"jsight-build"},
 		run:  runC04,
 		rule: "generated abstract API models (info, servers, user types with references, enums, tags, URL blocks with HTTP or JSON-RPC methods, path-bearing methods; all four notations, type references and arrays of references) rendered in a plain and in a random surface style; non-trivial = accepted document with >= 2 interactions and >= 1 cross-reference; distinct = distinct rendered bytes",
 		assume: []string{
@@ -100,6 +100,7 @@ func modelNontrivial(m *ApiModel) bool {
 
 func runC04(ctx *Ctx) {
 	r := ctx.Rng.Fork()
+	buildCorrSuite(ctx, r.Fork(), ctx.Budget(600, 40000))
 	n := ctx.Budget(1500, 100000)
 	rejected := 0
 	for i := 0; i < n; i++ {
